@@ -8,6 +8,7 @@ import HcipyVerif.Lemmas.ZernikeRadialReal
 import HcipyVerif.Lemmas.ZernikeArr
 import HcipyVerif.Lemmas.ZernikeUnit
 import HcipyVerif.Lemmas.ZernikePolyId
+import HcipyVerif.Lemmas.ZernikeGrid
 import Mathlib.Data.Rat.BigOperators
 
 /-!
@@ -1047,6 +1048,108 @@ theorem Old.basis_late_binding_counterexample :
   decide +kernel
 
 /-! ## Hypotheses are satisfiable -/
+
+/-! ## Round 6 — scale invariance and the grid as an object with a history
+
+The property is `Z(r/D)`: a common factor of the coordinates and of `D` (any unit of length: 2^-520 … 2^520 in the harness) changes
+nothing — stated on the executed definitions `modeQ / modeQCut / modeQXY / modeQXYCut / modesXY / modesPolar` (`C13 mode`).  After the
+in-place grid operations (`C13 gop`, `GOp.xy`) the modes are the modes at the *current* points. -/
+
+/-- polar points: `zernike(n, m, k D)` at radius `k r` is `zernike(n, m, D)` at radius `r` (any `k ≠ 0`, any `D`) -/
+theorem mode_scale_invariant (n : Nat) (m : Int) (D r c s k : Rat) (hk : k ≠ 0) :
+    modeQ n m (k * D) (k * r) c s = modeQ n m D r c s := by
+  unfold modeQ
+  rw [norm_coord_scale r D k hk]
+
+/-- the aperture mask `(2 r) < D` is invariant under a positive common factor -/
+theorem inside_scale_invariant (D r k : Rat) (hk : 0 < k) : inside (k * D) (k * r) = inside D r := by
+  unfold inside
+  rw [show 2 * (k * r) = k * (2 * r) by ring]
+  exact decide_eq_decide.mpr (lt_scale_iff _ _ k hk)
+
+/-- … hence the mode with the cut-off too -/
+theorem mode_cut_scale_invariant (n : Nat) (m : Int) (D r c s k : Rat) (hk : 0 < k) (cutoff : Bool) :
+    modeQCut n m (k * D) (k * r) c s cutoff = modeQCut n m D r c s cutoff := by
+  unfold modeQCut
+  rw [inside_scale_invariant D r k hk, mode_scale_invariant n m D r c s k hk.ne']
+
+/-- Cartesian points: the exact rim decision is invariant under any common factor `k ≠ 0` (it only sees squares) … -/
+theorem inside_cartesian_scale_invariant (D x y k : Rat) (hk : k ≠ 0) : insideXY (k * D) (k * x) (k * y) = insideXY D x y := by
+  unfold insideXY
+  rw [show 4 * (k * x * (k * x) + k * y * (k * y)) = (k * k) * (4 * (x * x + y * y)) by ring,
+    show k * D * (k * D) = (k * k) * (D * D) by ring]
+  exact decide_eq_decide.mpr (lt_scale_iff _ _ (k * k) (mul_self_pos.mpr hk))
+
+/-- … and so is the mode value, with or without the cut-off -/
+theorem mode_cartesian_scale_invariant (n : Nat) (m : Int) (D x y k : Rat) (hk : k ≠ 0) (cutoff : Bool) :
+    modeQXYCut n m (k * D) (k * x) (k * y) cutoff = modeQXYCut n m D x y cutoff := by
+  unfold modeQXYCut modeQXY
+  simp only [inside_cartesian_scale_invariant D x y k hk, norm_coord_scale x D k hk, norm_coord_scale y D k hk]
+
+/-- a whole Cartesian grid scaled (`grid.scale(k)`, `GOp.scale k k`) together with `D` -/
+theorem grid_scale_invariant (n : Nat) (m : Int) (D k : Rat) (hk : k ≠ 0) (cutoff : Bool) (p : List (Rat × Rat)) :
+    modesXY n m (k * D) cutoff ((GOp.scale k k).xy p) = modesXY n m D cutoff p := by
+  simp only [modesXY, GOp.xy, List.map_map]
+  apply List.map_congr_left
+  intro q _
+  exact mode_cartesian_scale_invariant n m D q.1 q.2 k hk cutoff
+
+/-- a whole polar grid scaled together with `D` (positive factor) -/
+theorem grid_polar_scale_invariant (n : Nat) (m : Int) (D k : Rat) (hk : 0 < k) (cutoff : Bool) (p : List (Rat × Rat × Rat)) :
+    ((GOp.scale k k).polar p).map (modesPolar n m (k * D) cutoff) = some (modesPolar n m D cutoff p) := by
+  simp only [GOp.polar, if_true, Option.map_some, modesPolar, List.map_map]
+  congr 1
+  apply List.map_congr_left
+  intro q _
+  exact mode_cut_scale_invariant n m D q.1 q.2.1 q.2.2 k hk cutoff
+
+/-- `grid.reverse()`: the values come in the reversed order — value `j` belongs to the *current* point `j` -/
+theorem grid_reverse_values (n : Nat) (m : Int) (D : Rat) (cutoff : Bool) (p : List (Rat × Rat)) :
+    modesXY n m D cutoff (GOp.reverse.xy p) = (modesXY n m D cutoff p).reverse := by
+  simp only [modesXY, GOp.xy, List.map_reverse]
+
+theorem grid_polar_reverse_values (n : Nat) (m : Int) (D : Rat) (cutoff : Bool) (p : List (Rat × Rat × Rat)) :
+    (GOp.reverse.polar p).map (modesPolar n m D cutoff) = some (modesPolar n m D cutoff p).reverse := by
+  simp only [GOp.polar, Option.map_some, modesPolar, List.map_reverse]
+
+/-- no operation changes the number of points, after any history -/
+theorem grid_history_length (ops : List GOp) (p : List (Rat × Rat)) : (runOpsXY ops p).length = p.length := by
+  unfold runOpsXY
+  induction ops generalizing p with
+  | nil => rfl
+  | cons o ops ih =>
+    rw [List.foldl_cons, ih]
+    cases o <;> simp [GOp.xy]
+
+/-- after any history the field has one value per current point -/
+theorem grid_history_modes_length (ops : List GOp) (n : Nat) (m : Int) (D : Rat) (cutoff : Bool) (p : List (Rat × Rat)) :
+    (modesXY n m D cutoff (runOpsXY ops p)).length = p.length := by
+  unfold modesXY
+  rw [List.length_map, grid_history_length]
+
+/-- a history is evaluated step by step: the modes after `ops ++ [o]` are the modes on `o` applied to the points after `ops`
+(no state other than the current points enters) -/
+theorem grid_history_step (ops : List GOp) (o : GOp) (p : List (Rat × Rat)) :
+    runOpsXY (ops ++ [o]) p = o.xy (runOpsXY ops p) := by
+  unfold runOpsXY
+  rw [List.foldl_append]; rfl
+
+/-- rotating the grid (`grid.rotate`, exact direction `(c, s)`, `c² + s² = 1`) leaves the rim decision … -/
+theorem inside_rotation_invariant (D x y c s : Rat) (hcs : c * c + s * s = 1) :
+    insideXY D (c * x - s * y) (s * x + c * y) = insideXY D x y := by
+  unfold insideXY
+  rw [rot_norm c s x y hcs]
+
+/-- … and every rotationally symmetric mode (`m = 0`: piston, defocus, spherical, …) unchanged, point by point -/
+theorem grid_rotation_m0 (n : Nat) (D c s : Rat) (hcs : c * c + s * s = 1) (cutoff : Bool) (p : List (Rat × Rat)) :
+    modesXY n 0 D cutoff ((GOp.rotate c s).xy p) = modesXY n 0 D cutoff p := by
+  simp only [modesXY, GOp.xy, List.map_map]
+  apply List.map_congr_left
+  intro q _
+  simp only [Function.comp, modeQXYCut, modeQXY, inside_rotation_invariant D q.1 q.2 c s hcs, rot_norm_scaled c s q.1 q.2 D hcs, if_true]
+
+example : ∃ k : Rat, 0 < k ∧ k ≠ 0 ∧ k * 3 = 3 / 2 ^ 52 := ⟨1 / 2 ^ 52, by positivity, by positivity, by ring⟩
+example : ∃ c s : Rat, c * c + s * s = 1 ∧ c ≠ 1 := ⟨3 / 5, 4 / 5, by norm_num, by norm_num⟩
 
 example : valid 4 (-2) = true := by decide
 example : ∃ D x y : Rat, D ≠ 0 ∧ 4 * (x * x + y * y) = D * D ∧ x ≠ 0 ∧ y ≠ 0 := ⟨10, 3, 4, by norm_num, by norm_num, by norm_num, by norm_num⟩
